@@ -377,7 +377,7 @@ Proof.
   - apply ex_numkcfg.
   - apply ex_not_gz.
   - exact ex_ops_basic.
-  - split; [exact ex_sfx_ok | vm_compute; discriminate].
+  - exact ex_sfx_ok.
 Qed.
 
 (* rCURRENT asked for twice - as r_current and as the custom current infix "rCURRENT" -: the file is listed once (the repaired
